@@ -127,9 +127,9 @@ func c12Body(c *ev.Ctx) {
 		dvk.WriteTo(f)
 		f.Close()
 	}
-	dims := [][2]int{{2, 2}}
+	dims := [][2]int{{3, 2}} // depth != batch, so a path that confuses the two builds a visibly different circuit
 	if !quick {
-		dims = [][2]int{{1, 1}, {2, 2}, {3, 2}, {31, 1}}
+		dims = [][2]int{{1, 1}, {2, 2}, {3, 2}, {2, 3}, {31, 1}}
 	}
 	seeds := mapSeeds(quick)
 	var runs []mapRun
